@@ -373,6 +373,24 @@ func (c *checkCtx) runSchedCold(prop, build string, nPlans, chunk int, timeout t
 	if len(agg.Samples) < 3 && len(plans) > 0 {
 		agg.Samples = append(agg.Samples, plans[0])
 	}
+	// plans without shared objects go first in their chunk: nothing in that
+	// process has parsed anything before their callers do so concurrently
+	noShared := func(raw json.RawMessage) bool {
+		var p plan.SchedPlan
+		return json.Unmarshal(raw, &p) == nil && len(p.Objects) == 0
+	}
+	for i := 0; i < len(plans); i += chunk {
+		j := i + chunk
+		if j > len(plans) {
+			j = len(plans)
+		}
+		for m := i; m < j; m++ {
+			if noShared(plans[m]) {
+				plans[i], plans[m] = plans[m], plans[i]
+				break
+			}
+		}
+	}
 	// stage 2: chunks
 	type chunkT struct {
 		file  string
